@@ -304,7 +304,7 @@ def observe_func(d, fn, imports=None):
                 surf.append("provider %d assigned with %s although the injector %s its variables" % (it["pi"], ":=" if it.get("define") else "=", "predeclares" if has_gos else "does not predeclare"))
     egw = [op for op in msurf if op["op"] == "egwait"]
     if has_gos:
-        if len(egw) != 1 or (reterr_ and (egw[0]["form"] != "if" or egw[0].get("errret") != "nilerr")) or (not reterr_ and egw[0]["form"] != "discard"):
+        if len(egw) != 1 or (reterr_ and (egw[0]["form"] != "if" or not (egw[0].get("errret") == "nilerr" or str(egw[0].get("errret", "")).startswith("zero:")))) or (not reterr_ and egw[0]["form"] != "discard"):
             surf.append("eg.Wait() form %s does not match the injector's results" % egw)
     elif egw:
         surf.append("eg.Wait() without goroutines")
